@@ -34,6 +34,21 @@ def to_program(pid, beh):
             cur.append({"op": "new", "kind": "priv", "ty": "int", "v": h["v"]}); objreg.append(reg); reg += 1
         elif a == "privbool":
             cur.append({"op": "new", "kind": "priv", "ty": "bool", "v": h["v"]}); objreg.append(reg); reg += 1
+        elif a == "truediv":
+            cur.append({"op": "bin", "name": "truediv", "a": {"r": objreg[h["i"] - 1]}, "b": {"r": objreg[h["j"] - 1]}}); objreg.append(reg); reg += 1
+        elif a == "truedivc":
+            cur.append({"op": "bin", "name": "truediv", "a": {"r": objreg[h["i"] - 1]}, "b": {"c": h["v"]}}); objreg.append(reg); reg += 1
+        elif a == "divmod":
+            cur.append({"op": "bin", "name": "divmod", "a": {"r": objreg[h["i"] - 1]}, "b": {"r": objreg[h["j"] - 1]}}); reg += 1
+            cur.append({"op": "item", "a": {"r": reg - 1}, "i": 0}); objreg.append(reg); reg += 1
+            cur.append({"op": "item", "a": {"r": reg - 2}, "i": 1}); objreg.append(reg); reg += 1
+        elif a == "ite":
+            cur.append({"op": "ite", "cond": {"r": objreg[h["v"] - 1]}, "t": {"r": objreg[h["i"] - 1]}, "f": {"r": objreg[h["j"] - 1]}})
+            if h["i"] != h["j"]:
+                objreg.append(reg)
+            reg += 1
+        elif a == "assert_nonzero":
+            cur.append({"op": "meth", "name": "assert_nonzero", "a": {"r": objreg[h["i"] - 1]}}); reg += 1
         elif a in ("add", "sub", "mul", "lt"):
             cur.append({"op": "bin", "name": a, "a": {"r": objreg[h["i"] - 1]}, "b": {"r": objreg[h["j"] - 1]}}); objreg.append(reg); reg += 1
         elif a in ("addc", "mulc"):
@@ -82,7 +97,7 @@ def impl_of(tr, P, maxw):
 
 
 def run_conformance(run, tier):
-    P, BL, maxw = 67, 2, 14
+    P, BL, maxw = 67, 2, 24
     behs = gen(run, P, BL, maxw, 3 if tier == "quick" else 4, "ValsQuick" if tier == "quick" else "ValsThorough")
     if run.violations or not behs:
         return
